@@ -52,6 +52,8 @@ def _shift(node, dl):
 
 
 BLOCK_KEYS = ('t', 'u', 'else', 'dr')
+MAX_FOREIGN_BLOCKS = 120      # size limit for helpers that live in another file
+MAX_TOTAL_BLOCKS = 4000       # stop inlining when the body has grown this large
 
 
 def _own_promoted(node, owner):
@@ -85,7 +87,10 @@ def eligible(fb, root, cb, keep, also):
         return True
     # a helper is a function of the crate that is not part of its public API: defined in the same file, or in another module with a
     # restricted visibility (`pub(crate)` / `pub(super)`) — logic that was moved next to the data it works on is still the same logic
-    return cb.raw.get('vis') != 'Public'
+    if cb.raw.get('vis') == 'Public':
+        return False
+    # (in a crate where almost everything is `pub(crate)` that would pull whole subsystems in: outside the root's file only small helpers)
+    return cb.file == root.file or len(cb.blocks) <= MAX_FOREIGN_BLOCKS
 
 
 def _generic_map(t):
@@ -405,7 +410,7 @@ def inlined(fb, body, keep=(), also=None, depth=4, crate=None, closures=True):
     while work:
         i, d, chain = work.pop()
         t = blocks[i]['term']
-        if not t or t['k'] != 'call' or d >= depth:
+        if not t or t['k'] != 'call' or d >= depth or len(blocks) > MAX_TOTAL_BLOCKS:
             continue
         name = callee_resolved(t) or callee(t)
         if closures and name and (callee(t) in COMBINATORS or callee(t) == BOOL_THEN):
